@@ -34,7 +34,7 @@ func c08Unit(c *RunCtx, unit int) {
 		}
 		return
 	}
-	// unit encodes (mount, mode); every unit enumerates the remaining 864 cells completely
+	// unit encodes (mount, mode); every unit enumerates the remaining 1296 cells completely
 	mounts := []string{"", "/auth"}
 	mount := mounts[unit%2]
 	jsonMode := (unit/2)%2 == 1
@@ -54,7 +54,7 @@ func c08Unit(c *RunCtx, unit int) {
 	nb := 0
 	for ui, uid := range uids {
 		for half := 0; half < 2; half++ {
-			for two := 0; two < 2; two++ {
+			for two := 0; two < 3; two++ { // 0: no mark, 1: twofactor=totp, 2: only the e-mail authorisation for 2FA SETUP (twofactor_authed), which is no second factor
 				for reqs := 0; reqs < 4; reqs++ {
 					for fi, fl := range fails {
 						for mp := 0; mp < 2; mp++ {
@@ -89,8 +89,12 @@ func c08Unit(c *RunCtx, unit int) {
 									if half == 1 {
 										w.Sess.Set(b, "halfauth", "true")
 									}
-									if two == 1 {
+									switch two {
+									case 1:
 										w.Sess.Set(b, "twofactor", "totp")
+									case 2:
+										w.Sess.Set(b, "twofactor_authed", "true")
+										w.Sess.Set(b, "twofactor_authed_pid", uid)
 									}
 									if uid == "" && half == 0 && two == 0 && r.Intn(2) == 0 {
 										w.Sess.Set(b, "app_theme", "dark") // a session without any auth key
@@ -182,7 +186,7 @@ func c08Unit(c *RunCtx, unit int) {
 			}
 		}
 	}
-	c.Stats.Sample(map[string]interface{}{"unit": unit, "mount": mount, "mode": modeOf(cfg), "cells_enumerated": 864, "example_cell": "uid=2 half=1 2fa=0 reqs=1 fail=Redirect mountPathed=1 storage=ok → 302 to <mount>/login?redir=<mount+path?query>"})
+	c.Stats.Sample(map[string]interface{}{"unit": unit, "mount": mount, "mode": modeOf(cfg), "cells_enumerated": 1296, "example_cell": "uid=2 half=1 2fa=0 reqs=1 fail=Redirect mountPathed=1 storage=ok → 302 to <mount>/login?redir=<mount+path?query>"})
 }
 
 func c08Judge(w *world.World, rec *world.Rec, uid string, half, two bool, reqs, fail int, mountPathed bool, storage, tgt string) *sim.Violation {
@@ -259,11 +263,11 @@ func c08Judge(w *world.World, rec *world.Rec, uid string, half, two bool, reqs, 
 func init() {
 	register(&Check{
 		ID: "C08", Level: "exploration", Exhaustive: true,
-		Rule:  "complete enumeration of the truth table: session uid {absent, unknown to storage, known} x halfauth mark x 2FA mark x requirement bits {0,1,2,3} x refusal mode {404, redirect, 401} x mountPathed (and, for the two refusal modes they can express, the deprecated bool-flag wrappers Middleware/MountedMiddleware against the same table) x Mount {'', '/auth'} x storage outcome {ok, generic error, not-found} x body mode {form, JSON} = 3456 cells, every one executed against the real MountedMiddleware2 behind LoadClientStateMiddleware with hand-made server-side session contents; each cell with the plain target plus 5 seeded targets from a corpus of hostile paths (spaces, non-ASCII, dot segments, double slashes, 300-byte paths, encoded '/', '?', ';') and queries ('&', '=', '%23', '+', repeated keys, bad escapes, 800 bytes, an own redir=). Oracle: handler ran <=> known user & requirements & storage ok; otherwise exactly 404 / 401 / redirect to <Mount>/login whose decoded redir equals path[+mount]?rawquery / 500 on storage error. exhaustive=true refers to the cell table; targets are sampled. Plus 192 cells in which the identity comes from the remember-me cookie in the very request (no stored session; session store answering an empty state object or a nil state): half-authenticated by definition. Two further units fire 8 anonymous clients x 150 (thorough: 1500) requests concurrently at ONE redirect-mode middleware instance behind a real server: each must be redirected with its own target. distinct_nontrivial = distinct (cell → outcome) pairs.",
+		Rule:  "complete enumeration of the truth table: session uid {absent, unknown to storage, known} x halfauth mark x 2FA mark {none, twofactor, only the 2FA-setup e-mail authorisation} x requirement bits {0,1,2,3} x refusal mode {404, redirect, 401} x mountPathed (and, for the two refusal modes they can express, the deprecated bool-flag wrappers Middleware/MountedMiddleware against the same table) x Mount {'', '/auth'} x storage outcome {ok, generic error, not-found} x body mode {form, JSON} = 5184 cells, every one executed against the real MountedMiddleware2 behind LoadClientStateMiddleware with hand-made server-side session contents; each cell with the plain target plus 5 seeded targets from a corpus of hostile paths (spaces, non-ASCII, dot segments, double slashes, 300-byte paths, encoded '/', '?', ';') and queries ('&', '=', '%23', '+', repeated keys, bad escapes, 800 bytes, an own redir=). Oracle: handler ran <=> known user & requirements & storage ok; otherwise exactly 404 / 401 / redirect to <Mount>/login whose decoded redir equals path[+mount]?rawquery / 500 on storage error. exhaustive=true refers to the cell table; targets are sampled. Plus 192 cells in which the identity comes from the remember-me cookie in the very request (no stored session; session store answering an empty state object or a nil state): half-authenticated by definition. Two further units fire 8 anonymous clients x 150 (thorough: 1500) requests concurrently at ONE redirect-mode middleware instance behind a real server: each must be redirected with its own target. distinct_nontrivial = distinct (cell → outcome) pairs.",
 		Units: func(t string) int { return 6 },
 		Run:   c08Unit,
 		Floors: func(t string) map[string]int {
-			return map[string]int{"cells": 3456, "deprecated-api-cells": 2304, "remember-cookie-cells": 192, "concurrent-refusals": 2000}
+			return map[string]int{"cells": 5184, "deprecated-api-cells": 3456, "remember-cookie-cells": 192, "concurrent-refusals": 2000}
 		},
 		Assumptions: []string{"for mountPathed routes the library path.Join()s mount and path; targets whose path that call would normalise (dot segments, '//', trailing '/') are only required to keep their query"},
 	})
